@@ -42,6 +42,10 @@ pub enum SerKind {
     ToValue,
     /// An own string-only `Serializer` whose `collect_str` streams `Display` into a `SimFmtSink`.
     OwnFmt,
+    /// serde's own `Serializer for &mut fmt::Formatter`, reached through a wrapper that is formatted
+    /// with width / precision / fill flags (`format!("{:*>w$.p$}", ...)`): the canonical string must
+    /// come out whatever flags the caller's formatter carries.
+    ViaFormatter { width: usize, precision: usize },
 }
 
 #[derive(Clone, Copy, Debug, PartialEq, Eq, Serialize, Deserialize)]
@@ -964,6 +968,24 @@ where
                 },
                 Err(_) => false,
             }),
+            SerKind::ViaFormatter { width, precision } => {
+                struct Through<'a, P>(&'a P);
+                impl<P: Serialize> Display for Through<'_, P> {
+                    fn fmt(&self, f: &mut fmt::Formatter<'_>) -> fmt::Result {
+                        self.0.serialize(f)
+                    }
+                }
+                guarded(|| {
+                    let text = match (width, precision) {
+                        (0, 0) => format!("{}", Through(p)),
+                        (w, 0) => format!("{:*>w$}", Through(p), w = w),
+                        (0, pr) => format!("{:.pr$}", Through(p), pr = pr),
+                        (w, pr) => format!("{:<w$.pr$}", Through(p), w = w, pr = pr),
+                    };
+                    writer.push_raw(json_minimal(&text).0.as_bytes());
+                    true
+                })
+            },
             SerKind::OwnFmt => {
                 let faults: Vec<(usize, FmtFault)> = sc
                     .f_faults
@@ -1417,7 +1439,8 @@ impl Sim for C16 {
             docs.push(doc);
         }
         let sep = (*rng.pick(&["\n", "\n", " ", "", "\r\n", "\t"])).to_owned();
-        let ser = match rng.below(12) {
+        let ser = match rng.below(13) {
+            12 => SerKind::ViaFormatter { width: *rng.pick(&[0usize, 0, 3, 12, 40, 300]), precision: *rng.pick(&[0usize, 0, 1, 2, 7, 50]) },
             0..=4 => SerKind::ToWriter,
             5 => SerKind::ToWriterPretty,
             6 => SerKind::ToBufWriter { cap: *rng.pick(&[1usize, 2, 5, 16, 64]) },
@@ -1471,7 +1494,7 @@ impl Sim for C16 {
         ev!(log, "scenario ty={:?} wrap={:?} ser={:?} de={:?} w_chunk={} r_chunk={} w_faults={:?} r_faults={:?} f_faults={:?}", sc.ty, sc.wrap, sc.ser, sc.de, sc.w_chunk, sc.r_chunk, sc.w_faults, sc.r_faults, sc.f_faults);
         // The string-only lanes have no room for a wrapper.
         let wrap = match sc.de {
-            _ if sc.ser == SerKind::OwnFmt => Wrap::Bare,
+            _ if sc.ser == SerKind::OwnFmt || matches!(sc.ser, SerKind::ViaFormatter { .. }) => Wrap::Bare,
             DeKind::SerdeStr(_) | DeKind::HintOnly(_) | DeKind::InPlace { vec: false } => Wrap::Bare,
             DeKind::InPlace { vec: true } => Wrap::Seq,
             _ => sc.wrap,
